@@ -95,6 +95,15 @@ func New() *Net {
 
 func now() int64 { return vsched.NowNS() }
 
+// wakeAt makes the virtual clock stop at t, so that goroutines that blocked before the
+// event was known (a reader waiting for a datagram, a deadline set by another goroutine)
+// are re-evaluated then.
+func wakeAt(t int64) {
+	if s := vsched.S; s != nil && t > s.NowNS() {
+		s.AddTimer(t, 0, func(int64) {})
+	}
+}
+
 // dl converts an absolute deadline (expressed on the calling goroutine's clock) to
 // virtual ns; 0 = none.
 func dl(t time.Time) int64 {
@@ -264,11 +273,15 @@ func (c *Conn) Reset() {
 	c.wr.reset = true
 }
 
-func (c *Conn) LocalAddr() net.Addr                { return c.local }
-func (c *Conn) RemoteAddr() net.Addr               { return c.remot }
-func (c *Conn) SetDeadline(t time.Time) error      { c.rdl, c.wdl = dl(t), dl(t); return nil }
-func (c *Conn) SetReadDeadline(t time.Time) error  { c.rdl = dl(t); return nil }
-func (c *Conn) SetWriteDeadline(t time.Time) error { c.wdl = dl(t); return nil }
+func (c *Conn) LocalAddr() net.Addr  { return c.local }
+func (c *Conn) RemoteAddr() net.Addr { return c.remot }
+func (c *Conn) SetDeadline(t time.Time) error {
+	c.rdl, c.wdl = dl(t), dl(t)
+	wakeAt(c.rdl)
+	return nil
+}
+func (c *Conn) SetReadDeadline(t time.Time) error  { c.rdl = dl(t); wakeAt(c.rdl); return nil }
+func (c *Conn) SetWriteDeadline(t time.Time) error { c.wdl = dl(t); wakeAt(c.wdl); return nil }
 func (c *Conn) Peer() *Conn                        { return c.peer }
 func (c *Conn) ID() int                            { return c.id }
 func (c *Conn) Buffered() int                      { return len(c.rd.buf) }
@@ -501,18 +514,22 @@ func (e *PacketEP) WriteTo(p []byte, to net.Addr) (int, error) {
 	f := rec.Fault
 	if dst != nil && !dst.closed && f.Kind != Drop {
 		b := rec.B
+		drop := false
 		if f.Kind == Mutate {
 			b = f.Mut(append([]byte(nil), rec.B...))
+			drop = b == nil
 		}
 		at := now() + int64(n.Latency)
 		if f.Kind == Delay {
 			at += int64(f.Delay)
 		}
-		if b != nil {
+		if !drop {
+			wakeAt(at)
 			rec.DeliverAt = at
 			dst.seq++
 			dst.q = append(dst.q, qd{b: b, from: from, at: at, seq: dst.seq, rec: rec})
 			if f.Kind == Dup {
+				wakeAt(at + int64(f.Delay) + 1000)
 				dst.seq++
 				dst.q = append(dst.q, qd{b: b, from: from, at: at + int64(f.Delay) + 1000, seq: dst.seq, rec: rec, dup: true})
 			}
@@ -533,6 +550,7 @@ func (n *Net) Inject(from, to *net.UDPAddr, b []byte) {
 		return
 	}
 	rec.DeliverAt = now() + int64(n.Latency)
+	wakeAt(rec.DeliverAt)
 	dst.seq++
 	dst.q = append(dst.q, qd{b: rec.B, from: from, at: rec.DeliverAt, seq: dst.seq, rec: rec})
 }
@@ -543,8 +561,8 @@ func (e *PacketEP) Close() error {
 	return nil
 }
 func (e *PacketEP) LocalAddr() net.Addr                { return e.addr }
-func (e *PacketEP) SetDeadline(t time.Time) error      { e.rdl = dl(t); return nil }
-func (e *PacketEP) SetReadDeadline(t time.Time) error  { e.rdl = dl(t); return nil }
+func (e *PacketEP) SetDeadline(t time.Time) error      { e.rdl = dl(t); wakeAt(e.rdl); return nil }
+func (e *PacketEP) SetReadDeadline(t time.Time) error  { e.rdl = dl(t); wakeAt(e.rdl); return nil }
 func (e *PacketEP) SetWriteDeadline(t time.Time) error { return nil }
 
 type PacketFactory struct{ N *Net }
